@@ -32,7 +32,7 @@ func (w *verifRW) WriteHeader(c int) {
 // VerifHTTPPermissionPath (C11): the path whose pull right is checked for an HTTP/WS
 // stream request is the path of the stream the handler will open.
 func VerifHTTPPermissionPath() {
-	rights := []string{"/live/a", "/live/*", "/live/a/3", "/live/a/+", "/other"}
+	rights := []string{"/live/a", "/live/*", "/live/a/3", "/live/a/+", "/other", "/cam.1", "/cam", "/site/door.front", "/site/door"}
 	right := rights[symapi.Choose("right", len(rights))]
 	auth.Save(&auth.User{Name: "alice", Password: "pa", PullAccess: right}, true)
 	reqs := []struct{ path, stream string }{
@@ -42,6 +42,11 @@ func VerifHTTPPermissionPath() {
 		{"/streams/live/a/17.ts", "/live/a"},
 		{"/ws/live/a", "/live/a"},
 		{"/streams/live/b/c.flv", "/live/b/c"},
+		// stream names with a dot in their last segment
+		{"/streams/cam.1/3.ts", "/cam.1"},
+		{"/streams/cam.1.flv", "/cam.1"},
+		{"/streams/cam.1.m3u8", "/cam.1"},
+		{"/streams/site/door.front/12.ts", "/site/door.front"},
 	}
 	rq := reqs[symapi.Choose("req", len(reqs))]
 	r := &http.Request{Method: "GET", URL: &url.URL{Path: rq.path}, Header: http.Header{}}
